@@ -232,12 +232,18 @@ func (w *Flushable) flush() error {
 
 // Stat returns a particular internal stat of the database.
 func (w *Flushable) Stat(property string) (string, error) {
-	return w.underlying.Stat(property)
+	w.lock.RLock()
+	underlying := w.underlying
+	w.lock.RUnlock()
+	return underlying.Stat(property)
 }
 
 // Compact flattens the underlying data store for the given key range.
 func (w *Flushable) Compact(start []byte, limit []byte) error {
-	return w.underlying.Compact(start, limit)
+	w.lock.RLock()
+	underlying := w.underlying
+	w.lock.RUnlock()
+	return underlying.Compact(start, limit)
 }
 
 /*
